@@ -58,6 +58,9 @@ func validateProcessor(processor publictypes.ProcessorDataI) error {
 
 	keyMap := make(map[string]bool)
 	for _, param := range processor.ParamList() {
+		if param == nil {
+			return fmt.Errorf("empty parameter in processor %s", processor.GetName())
+		}
 		if keyMap[param.Key] {
 			return fmt.Errorf("duplicate key: %s in processor %s", param.Key, processor.GetName())
 		}
